@@ -15,3 +15,6 @@ B.WRAP.update({
     ("ExtensionInformation", "extension_tag"): lambda v: objects.ExtensionTag(v),
     ("ExtensionInformation", "extension_type"): lambda v: objects.ExtensionType(v),
 })
+
+
+G.FIELD_POOL[("QueryResponsePayload", "protection_storage_masks")] = [G.num(x) for x in (1, 2, 3, 0x200, 0x3FFF)]
